@@ -271,7 +271,14 @@ func (vc *VC) modelVars(name string, v *Val, t types.Type, depth int) [][2]strin
 // return outside the declared modifies locations, for objects allocated at entry.
 func (vc *VC) frameObligations(fr *Frame, c *Contract) {
 	if vc.written["*"] {
-		vc.addObl(&Obligation{Kind: "frame", Anchor: "all", Props: c.Props, Desc: "function havocs the whole heap (unknown callee) but declares a modifies clause",
+		var by []string
+		for k := range vc.Dropped {
+			if strings.HasPrefix(k, "whole-heap-havoc-by:") {
+				by = append(by, strings.TrimPrefix(k, "whole-heap-havoc-by:"))
+			}
+		}
+		sort.Strings(by)
+		vc.addObl(&Obligation{Kind: "frame", Anchor: "all", Props: c.Props, Desc: "function havocs the whole heap (unknown callee: " + strings.Join(by, ", ") + ") but declares a modifies clause",
 			Goals: []Goal{{"true", "false"}}, Mark: vc.S.Mark()})
 		return
 	}
@@ -395,7 +402,10 @@ func (p *Prog) guardMap() map[string][]string {
 			full := c.Pkg + "." + typ
 			for _, f := range strings.Split(g[i+1:], ",") {
 				f = strings.TrimSpace(f)
-				if f != "" {
+				if strings.HasPrefix(f, "ghost:") {
+					// a ghost variable protected by the mutex: unknown after re-acquisition
+					out["F|"+full+"|"+mu] = append(out["F|"+full+"|"+mu], "G|ghost."+strings.TrimPrefix(f, "ghost:"))
+				} else if f != "" {
 					out["F|"+full+"|"+mu] = append(out["F|"+full+"|"+mu], "F|"+full+"|"+f)
 				}
 			}
